@@ -160,7 +160,9 @@ def orbit(case):
     if case["datatype"]["kind"] != "codon" and ncols_ >= 2:
         v = copy.deepcopy(case)
         k_ = int(rng.integers(1, ncols_))
-        v["indices"] = ["%d:,:%d" % (k_, k_), "::2,1::2", "1::2,::2"][int(rng.integers(3))]
+        # (also pieces read backwards - a negative step with an open stop - and bounds counted from the end)
+        forms = ["%d:,:%d" % (k_, k_), "::2,1::2", "1::2,::2", "%d::-1,%d:" % (k_ - 1, k_), "%d:,%d::-1" % (k_, k_ - 1), "::-1", "-%d:,:-%d" % (ncols_ - k_, ncols_ - k_)]
+        v["indices"] = forms[int(rng.integers(len(forms)))]
         out.append(("indices-in-pieces", v, 1.0))
     # 6f an unrooted tree whose Newick carries a length on the root node itself (as many programs write it): there is no such branch
     if unrooted and case.get("bl_mode", "keep") == "keep":
